@@ -43,6 +43,7 @@ class SSAValue:
         self.owner = owner
         self.name_hint = name_hint
         self.uses = []
+        self.replaced = None
 
     @staticmethod
     def get(x, type=None):
@@ -70,6 +71,16 @@ class BlockArgument(SSAValue):
     @property
     def block(self):
         return self.owner
+
+    def replace_uses_with_if(self, value, predicate):
+        """recorded, not performed: the contract reads `replaced` to see which value users now see"""
+        self.replaced = (value, predicate)
+
+    def replace_all_uses_with(self, value):
+        self.replaced = (value, None)
+
+    def replace_by(self, value):
+        self.replaced = (value, None)
 
 
 def den(x):
